@@ -433,7 +433,7 @@ def cold_judge(case):
 def subchecks(tier):
     q = tier == "quick"
     return [
-        Hyp("history-state-machine", machine_factory, machine_judge, examples=320 if q else 6400, stateful=True, step_count=30 if q else 50),
+        Hyp("history-state-machine", machine_factory, machine_judge, examples=256 if q else 6400, stateful=True, step_count=30 if q else 50),
         Hyp("threads-fixed-workload", thread_strategy, thread_judge, examples=24 if q else 320, shards=4 if q else 16),
         Enum("cold-start-threads", judge=cold_judge, items=cold_items, shards=6 if q else 16),
     ]
